@@ -27,13 +27,14 @@ CASE_TIMEOUT = 180
 WALL = {"quick": 900, "thorough": 7200}
 REQUIRED = {"files_reread": 500, "atoms_compared": 5000, "interactions_compared": 5000, "conditional_interactions": 50,
             "residue_graphs_compared": 100, "gen_coords_consumed": 8, "library_cases": 5,
-            "with_modification_definitions": 50}
+            "with_modification_definitions": 50, "library_sequence_cases": 100}
 
 
 def plan(tier, seed):
     n = 2500 if tier == "quick" else 30000
     cids = [["gen", i] for i in range(n)]
     cids += [["lib", i] for i in range(len(library_commands()))]
+    cids += [["libseq", i] for i in range(n // 8)]
     return cids
 
 
@@ -109,6 +110,8 @@ def run_case(cid, rng, workdir):
     res = new_result()
     if cid[0] == "lib":
         return run_lib(cid, rng, workdir, res)
+    if cid[0] == "libseq":
+        return run_libseq(cid, rng, workdir, res)
     case = paramcase.build(rng, profile="full", nmin=1, nmax=7, max_links=4,
                            link_opts={"p_remove": 0.08, "p_cond": 0.25, "p_edge": 0.15, "linktypes": True, "p_log": 0.25})
     if rng.random() < 0.25:
@@ -328,4 +331,66 @@ def run_lib(cid, rng, workdir, res):
                           "one (nodes equal: %s, edges equal: %s)" % (lib, pol, got_nodes == want_nodes, got_edges == want_edges), w())
     except Exception as err:
         violation(res, "reread-fails:library:%s" % type(err).__name__, "%s/%s: %s" % (lib, pol, str(err)[:200]), w())
+    return res
+
+
+def run_libseq(cid, rng, workdir, res):
+    """seeded residue graphs over the blocks of the shipped libraries: the written file must give the requested
+    residues back (same ids and names) and, when no link is missing, the same residue graph"""
+    import vermouth.forcefield
+    from polyply.src.meta_molecule import MetaMolecule
+    if rng.random() < 0.3:
+        case = PC.build_library_case(rng, nmin=1, lib="martini3", prefer=PC.PROTEIN | {"HIH"})
+    else:
+        case = PC.build_library_case(rng, nmin=1)
+    ev = PC.evaluate_library(case, workdir)
+    run = ev["run"]
+    res["sig"] = sig_of([case["lib"], case["graph"]])
+    res["sample"] = case["descr"]
+    w = PC.witness(case)
+    passed_links = ("links", "exit") in run["events"]
+    if run["status"] != "ok":
+        if passed_links:
+            violation(res, "no-file-after-link-stage:library:%s" % run.get("exc_type"),
+                      "passed mapping and link application but gen_params raised %s" % run["error"], w)
+        else:
+            res["status"] = "rejected"
+        return res
+    bump(res, "library_sequence_cases")
+    note(res, "libraries", case["lib"])
+    res["nontrivial"] = True
+    try:
+        ffield = vermouth.forcefield.ForceField(name="rr")
+        meta2 = MetaMolecule.from_itp(ffield, ev["out"], "POLY")
+    except Exception as err:      # noqa
+        if type(err).__name__ == "CaseTimeout":
+            raise
+        violation(res, "reread-fails:library:%s" % type(err).__name__, str(err)[:200], w)
+        return res
+    bump(res, "files_reread")
+    want_nodes = sorted((n["resid"], n["resname"]) for n in case["graph"]["nodes"])
+    got_nodes = sorted((meta2.nodes[n]["resid"], meta2.nodes[n]["resname"]) for n in meta2.nodes)
+    if got_nodes != want_nodes:
+        violation(res, "residues-differ:library", "residues recovered from the file %s, requested %s" %
+                  (got_nodes[:8], want_nodes[:8]), w)
+        return res
+    if not run["missing"]:
+        by_key = {n["key"]: n["resid"] for n in case["graph"]["nodes"]}
+        want_edges = {frozenset((by_key[a], by_key[b])) for a, b, _ in case["graph"]["edges"]}
+        got_edges = {frozenset((meta2.nodes[a]["resid"], meta2.nodes[b]["resid"])) for a, b in meta2.edges}
+        # as in the generated stratum: an edge realised only by an angle / improper link (no bond between the two
+        # residues, e.g. HEA next to PE in 2016H66) does not survive in a file; those cases are not judged
+        file_adj = set()
+        rid = {a["idx"]: a["resid"] for a in ev["obs"]["atoms"]}
+        for sec in ("bonds", "constraints"):
+            for (ats, _p, cond) in ev["obs"]["inter"].get(sec, {}):
+                if rid[ats[0]] != rid[ats[1]] and not cond:
+                    file_adj.add(frozenset((rid[ats[0]], rid[ats[1]])))
+        if not want_edges <= file_adj:
+            bump(res, "library_edges_realised_without_bond")
+            return res
+        bump(res, "residue_graphs_compared")
+        if got_edges != want_edges:
+            violation(res, "residue-graph-differs:library", "edges recovered %s, requested %s" %
+                      (sorted(map(sorted, got_edges))[:8], sorted(map(sorted, want_edges))[:8]), w)
     return res
